@@ -1,4 +1,185 @@
+(* C06 - Name comparison is the DNSSEC canonical order, coherent with equality and hash.
+   Model: coq/Model/NameM.v (fullcompare, __hash__, is_subdomain/is_superdomain, parent, split,
+   relativize/derelativize, RFC 4471 successor/predecessor).  Specifications the theorems
+   compare against (written independently of the model's loops):
+     canon_cmp, ci_equal            Proofs/NameOrder.v   (RFC 4034 6.1 order; ASCII-ci equality)
+     common_suffix, rel_of, ci_suffix  Proofs/NameRel.v  (common label count; relation table)
+     Valid                          Proofs/NameValid.v   (63 / 255 / empty-label-last limits)
+   All theorems quantify over arbitrary label lists (any octets, any relativity). *)
 From DV Require Import Base.Prelude Model.NameM.
-Theorem placeholder_c06 : order [] [] = 0.
-Proof. reflexivity. Qed.
-Print Assumptions placeholder_c06.
+From DV Require Import Proofs.NameOrder Proofs.NameValid Proofs.NameRel Proofs.NameSucc.
+Open Scope Z_scope.
+
+(* ---- the order is exactly RFC 4034 6.1 (relative names first) ---- *)
+Theorem order_spec : forall a b : name, (order a b ?= 0) = canon_cmp a b.
+Proof. exact NameOrder.order_spec. Qed.
+Print Assumptions order_spec.
+
+Theorem order_total : forall a b : name, order a b < 0 \/ ci_equal a b \/ order b a < 0.
+Proof. exact NameOrder.order_total. Qed.
+Print Assumptions order_total.
+
+Theorem order_antisym : forall a b : name, (order b a ?= 0) = CompOpp (order a b ?= 0).
+Proof. exact NameOrder.order_antisym. Qed.
+Print Assumptions order_antisym.
+
+Theorem order_antisym_le : forall a b : name, order a b <= 0 -> order b a <= 0 -> ci_equal a b.
+Proof. exact NameOrder.order_antisym_le. Qed.
+Print Assumptions order_antisym_le.
+
+Theorem order_trans : forall a b c : name, order a b <= 0 -> order b c <= 0 -> order a c <= 0.
+Proof. exact NameOrder.order_trans. Qed.
+Print Assumptions order_trans.
+
+Theorem order_trans_lt : forall a b c : name, order a b < 0 -> order b c < 0 -> order a c < 0.
+Proof. exact NameOrder.order_trans_lt. Qed.
+Print Assumptions order_trans_lt.
+
+(* ---- equality is ASCII-case-insensitive label equality; equal names hash equally ---- *)
+Theorem eq_iff_ci : forall a b : name, order a b = 0 <-> ci_equal a b.
+Proof. exact NameOrder.eq_iff_ci. Qed.
+Print Assumptions eq_iff_ci.
+
+Theorem hash_congr : forall a b : name, ci_equal a b -> name_hash a = name_hash b.
+Proof. exact NameOrder.hash_congr. Qed.
+Print Assumptions hash_congr.
+
+Theorem eq_hash : forall a b : name, order a b = 0 -> name_hash a = name_hash b.
+Proof. exact NameOrder.eq_hash. Qed.
+Print Assumptions eq_hash.
+
+(* ---- relation and common-label count ---- *)
+Theorem relation_spec : forall a b : name,
+  is_absolute a = is_absolute b ->
+  reln a b = rel_of (length a) (length b) (common_suffix a b) /\
+  common a b = Z.of_nat (common_suffix a b).
+Proof. exact NameRel.relation_spec. Qed.
+Print Assumptions relation_spec.
+
+Theorem relation_spec_mixed : forall a b : name,
+  is_absolute a <> is_absolute b -> reln a b = rNONE /\ common a b = 0.
+Proof. exact NameRel.relation_spec_mixed. Qed.
+Print Assumptions relation_spec_mixed.
+
+Theorem reln_equal_iff : forall a b : name, reln a b = rEQUAL <-> ci_equal a b.
+Proof. exact NameRel.reln_equal_iff. Qed.
+Print Assumptions reln_equal_iff.
+
+Theorem is_subdomain_iff : forall a b : name,
+  is_subdomain a b = true <-> is_absolute a = is_absolute b /\ ci_suffix b a.
+Proof. exact NameRel.is_subdomain_iff. Qed.
+Print Assumptions is_subdomain_iff.
+
+Theorem is_superdomain_iff : forall a b : name,
+  is_superdomain a b = true <-> is_absolute a = is_absolute b /\ ci_suffix a b.
+Proof. exact NameRel.is_superdomain_iff. Qed.
+Print Assumptions is_superdomain_iff.
+
+Theorem parent_spec : forall n p : name,
+  parent n = Ok p ->
+  exists l, n = l :: p /\ Valid p /\
+    is_subdomain n p = true /\ is_superdomain p n = true /\ common n p = zlen p /\ reln n p = rSUB.
+Proof. exact NameRel.parent_spec. Qed.
+Print Assumptions parent_spec.
+
+Theorem split_spec : forall (n : name) (d : Z) (p s : name),
+  split n d = Ok (p, s) ->
+  n = p ++ s /\ zlen s = d /\
+  (s <> [] -> is_subdomain n s = true /\ is_superdomain s n = true /\ common n s = d).
+Proof. exact NameRel.split_spec. Qed.
+Print Assumptions split_spec.
+
+(* ---- relativize then derelativize restores the name (every origin, also the empty one) ---- *)
+Theorem rel_derel : forall n o : name,
+  Valid n -> is_subdomain n o = true ->
+  exists r, relativize n o = Ok r /\ n = r ++ skipn (length r) n /\
+    ci_equal (skipn (length r) n) o /\
+    derelativize r o = Ok (r ++ o) /\ ci_equal (r ++ o) n.
+Proof. exact NameRel.rel_derel. Qed.
+Print Assumptions rel_derel.
+
+Theorem derel_rel : forall r o : name,
+  Valid r -> Valid o -> is_absolute r = false -> is_absolute o = true -> Valid (r ++ o) ->
+  derelativize r o = Ok (r ++ o) /\ relativize (r ++ o) o = Ok r.
+Proof. exact NameRel.derel_rel. Qed.
+Print Assumptions derel_rel.
+
+(* ---- RFC 4471 successor / predecessor ---- *)
+(* absolute name in the zone: the successor exists, is a valid name of the zone and sorts
+   strictly after the name, or is the origin (the documented wrap) *)
+Theorem successor_after : forall (n o : name) (prefix_ok : bool) (s : name),
+  Valid n -> Valid o -> is_absolute n = true ->
+  successor n o prefix_ok = Ok s ->
+  Valid s /\ ((order n s < 0 /\ is_subdomain s o = true) \/ s = o).
+Proof. exact NameSucc.successor_after_abs. Qed.
+Print Assumptions successor_after.
+
+Theorem successor_exists : forall (n o : name) (prefix_ok : bool),
+  Valid n -> Valid o -> is_absolute o = true -> is_subdomain n o = true ->
+  exists s, absolute_successor n o prefix_ok = Ok s /\ Valid s /\
+    ((order n s < 0 /\ is_subdomain s o = true) \/ s = o).
+Proof. exact NameSucc.absolute_successor_spec. Qed.
+Print Assumptions successor_exists.
+
+(* relative name: relativity is preserved; the wrap to the origin shows as the empty name *)
+Theorem successor_after_relative : forall (n o : name) (prefix_ok : bool) (s : name),
+  Valid n -> Valid o -> is_absolute n = false ->
+  successor n o prefix_ok = Ok s ->
+  Valid s /\ is_absolute s = false /\ (order n s < 0 \/ s = []).
+Proof. exact NameSucc.successor_after_rel. Qed.
+Print Assumptions successor_after_relative.
+
+(* predecessor of any name of the zone other than the origin itself (for the origin the
+   documented result is the longest name under the origin) *)
+Theorem predecessor_before : forall (n o : name) (prefix_ok : bool) (s : name),
+  Valid n -> Valid o -> is_absolute n = true -> name_eqb n o = false ->
+  predecessor n o prefix_ok = Ok s ->
+  Valid s /\ order s n < 0 /\ is_subdomain s o = true.
+Proof. exact NameSucc.predecessor_before_abs. Qed.
+Print Assumptions predecessor_before.
+
+Theorem predecessor_before_relative : forall (n o : name) (prefix_ok : bool) (s : name),
+  Valid n -> Valid o -> is_absolute n = false -> n <> [] ->
+  predecessor n o prefix_ok = Ok s ->
+  Valid s /\ is_absolute s = false /\ order s n < 0.
+Proof. exact NameSucc.predecessor_before_rel. Qed.
+Print Assumptions predecessor_before_relative.
+
+(* the fuel of the `while needed > 64` padding loop is sufficient for every name *)
+Theorem pad_fuel_sufficient : forall (n : name) acc,
+  0 <= wire_length n -> snd (pad_labels 8 (255 - wire_length n) acc) <= 64.
+Proof. intros n acc H. apply NameSucc.pad_labels_enough. cbn. lia. Qed.
+Print Assumptions pad_fuel_sufficient.
+
+(* ---- non-vacuity: the hypotheses are satisfiable and the conclusions are not trivial ---- *)
+Definition ex_o : name := [[101; 120]; []].                       (* ex. *)
+Definition ex_n : name := [[90; 90]; [101; 120]; []].             (* ZZ.ex. *)
+Definition ex_z63 : name := [repeat 90 63; [101; 120]; []].       (* 63 x 'Z' . ex. *)
+
+Example ex_valid : Valid ex_n /\ Valid ex_o /\ Valid ex_z63.
+Proof. repeat split; apply validate_iff; reflexivity. Qed.
+Example ex_sub : is_subdomain ex_n ex_o = true /\ is_absolute ex_n = true /\ name_eqb ex_n ex_o = false.
+Proof. repeat split; vm_compute; reflexivity. Qed.
+Example ex_succ : successor ex_n ex_o true = Ok ([0] :: ex_n) /\
+                  successor ex_n ex_o false = Ok [[90; 90; 0]; [101; 120]; []].
+Proof. split; vm_compute; reflexivity. Qed.
+(* the case fixed by /repo commit b64278c: a label of 63 'Z' goes to '{', which sorts after it *)
+Example ex_succ_z63 : successor ex_z63 ex_o false = Ok [repeat 90 62 ++ [123]; [101; 120]; []]
+                      /\ order ex_z63 [repeat 90 62 ++ [123]; [101; 120]; []] < 0
+                      /\ order ex_z63 [repeat 90 62 ++ [91]; [101; 120]; []] > 0.
+Proof. repeat split; vm_compute; reflexivity. Qed.
+Example ex_succ_wrap : successor [repeat 255 63; repeat 255 63; repeat 255 63; repeat 97 61; []] [repeat 97 61; []] true
+                       = Ok [repeat 97 61; []].
+Proof. vm_compute. reflexivity. Qed.
+Example ex_pred : predecessor ex_n ex_o false = Ok [[90; 89] ++ repeat 255 61; [101; 120]; []].
+Proof. vm_compute. reflexivity. Qed.
+Example ex_rel : successor [[90; 90]] ex_o false = Ok [[90; 90; 0]] /\ predecessor [[90; 90]] ex_o false = Ok [[90; 89] ++ repeat 255 61].
+Proof. split; vm_compute; reflexivity. Qed.
+Example ex_order_case : order [[64]; []] [[96]; []] < 0 /\ order [[65]; []] [[96]; []] > 0 /\ order [[90]; []] [[91]; []] > 0
+                        /\ order [[65; 66]; []] [[97; 98]; []] = 0.
+Proof. repeat split; vm_compute; reflexivity. Qed.
+Example ex_rel_derel_empty : relativize [[119]] [] = Ok [[119]] /\ derelativize [[119]] [] = Ok [[119]].
+Proof. split; reflexivity. Qed.
+Example ex_relation : reln ex_n ex_o = rSUB /\ common ex_n ex_o = 2 /\ reln [[97]; []] [[98]; []] = rCOMMON
+                      /\ reln [[97]] [[98]] = rNONE /\ reln [[97]] [[97]; []] = rNONE.
+Proof. repeat split; reflexivity. Qed.
